@@ -34,6 +34,17 @@ THEOREMS = [
     'C02.World.boxVects_shared', 'C02.World.sysBoxSet_shared', 'C02.World.arrDmag2_history',
     'C02.World.disp_history',
     'C02.dvect_direct_of_short', 'C02.dispWith_direct_of_short', 'C02.dmag2_nonneg', 'C02.dvect_periodic_copy',
+    # round 5: the source tie (Generated/DvectSource.lean, regenerated from dvect.pyx / dmag.pyx / displacement.py / System.py)
+    'C02.Source.gen_dvect_loop_eq_model', 'C02.Source.gen_dvect_init_eq_model', 'C02.Source.gen_dvect_body_eq_model',
+    'C02.Source.gen_dvectC_eq_model', 'C02.Source.gen_dmag2_loop_eq_model', 'C02.Source.gen_dmag2_init_eq_model',
+    'C02.Source.gen_dmag2_body_eq_model', 'C02.Source.gen_dmag2C_eq_model', 'C02.Source.gen_real_types_double',
+    'C02.Source.gen_dvectWrap_eq_model', 'C02.Source.gen_dmagWrap_eq_model', 'C02.Source.gen_sysDvect_eq_model',
+    'C02.Source.gen_sysDmag_eq_model', 'C02.Source.gen_pbcSetter_eq_model', 'C02.Source.gen_getters_live',
+    'C02.Source.gen_box_reference_default', 'C02.Source.gen_displacement_eq_model',
+    # round 5: API level (argument forms, flags, refusals) and end-to-end statements about the generated definitions
+    'C02.dvectApi_eq_arr', 'C02.dvectApi_ok_iff', 'C02.dvectApi_type_iff', 'C02.dvectApi_flag_forms', 'C02.dmag2Api_eq',
+    'C02.api_dvect_end_to_end', 'C02.api_dmag_end_to_end', 'C02.displacement_ok_iff', 'C02.api_displacement_end_to_end',
+    'C02.api_system_end_to_end', 'C02.pbcSetter_ok_iff',
 ]
 PARTIAL = {}
 RULE = ('cells: diagonal, rotated/left-handed mutually orthogonal, LAMMPS-triclinic, general 3x3 (det != 0), strongly '
@@ -2395,6 +2406,890 @@ def replay(ctx, payload):
                 check_history(ctx, c, stats)
     else:
         search(ctx, True)
+
+
+# ----------------------------------------------------------------------------------------
+# translator: atomman/core/dvect.pyx, dmag.pyx, displacement.py and System.dvect / System.dmag / the pbc property
+#             -> lean/Atomman/Generated/DvectSource.lean   (proved equal to the hand model in Proofs/C02_Source.lean)
+#
+# The Cython files are Python-like text except for their declarations.  `_decython` rewrites ONLY declaration syntax
+# (`cdef f(typed parameters):` -> `def f(parameters):`, `cdef <type> a, b = e` -> `a = e` / `pass`, recording the
+# declared types); everything else - loops, tests, formulas, calls - is read from the `ast` of the result.  The kernels are
+# compiled statement by statement into Lean `let` chains: per-row initialisation, the loop nest as a `flatMap` over
+# `intRange`s, the innermost body as a function of the loop-carried value.  Anything outside that subset raises
+# TranslationError (the check then searches for a failing input against the last committed model).
+GENERATED = ['DvectSource']
+
+_COMP = ['x', 'y', 'z']
+
+
+def _terr(msg):
+    from ..translate import TranslationError
+    raise TranslationError(msg)
+
+
+def _split_top(text, sep=','):
+    out, depth, cur = [], 0, ''
+    for ch in text:
+        if ch in '([{':
+            depth += 1
+        elif ch in ')]}':
+            depth -= 1
+        if ch == sep and depth == 0:
+            out.append(cur)
+            cur = ''
+        else:
+            cur += ch
+    out.append(cur)
+    return [o.strip() for o in out]
+
+
+def _type_and_name(decl, where):
+    """`const double[:,:] pos_0` -> ('const double[:,:]', 'pos_0')."""
+    decl = decl.strip()
+    k = len(decl)
+    while k > 0 and (decl[k - 1].isalnum() or decl[k - 1] == '_'):
+        k -= 1
+    name, typ = decl[k:], ' '.join(decl[:k].split())
+    if not name.isidentifier():
+        _terr(f'{where}: cannot read the declaration {decl!r}')
+    return typ, name
+
+
+def _decython(src, where):
+    """Cython text -> (python text, {function: {variable: declared C type}})."""
+    lines = src.split('\n')
+    out, types, cur, i = [], {}, None, 0
+    while i < len(lines):
+        line = lines[i]
+        stripped = line.lstrip()
+        indent = line[:len(line) - len(stripped)]
+        if stripped.startswith('cdef ') and '(' in stripped and not indent and \
+                stripped.split('(')[0].split()[-1].isidentifier() and '=' not in stripped.split('(')[0]:
+            # cdef [type] name(typed parameters):   possibly over several lines
+            text = stripped
+            while text.count('(') > text.count(')'):
+                i += 1
+                if i >= len(lines):
+                    _terr(f'{where}: unterminated signature')
+                text += ' ' + lines[i].strip()
+            head, rest = text.split('(', 1)
+            params, tail = rest.rsplit(')', 1)
+            if tail.strip() != ':':
+                _terr(f'{where}: signature {text!r}')
+            fname = head.split()[-1]
+            cur = fname
+            types[cur] = {}
+            names = []
+            for prm in _split_top(params):
+                typ, name = _type_and_name(prm, where)
+                types[cur][name] = typ
+                names.append(name)
+            out.append(f'def {fname}({", ".join(names)}):')
+        elif stripped.startswith('cdef '):
+            if cur is None:
+                _terr(f'{where}: declaration outside a cdef function: {stripped!r}')
+            body = stripped[5:]
+            parts = _split_top(body, '=')
+            if len(parts) == 2 and '==' not in body:
+                typ, name = _type_and_name(parts[0], where)
+                types[cur][name] = typ
+                out.append(f'{indent}{name} = {parts[1]}')
+            elif len(parts) == 1:
+                pieces = _split_top(body)
+                typ, name = _type_and_name(pieces[0], where)
+                for nm in [name] + pieces[1:]:
+                    if not nm.isidentifier():
+                        _terr(f'{where}: declaration {stripped!r}')
+                    types[cur][nm] = typ
+                out.append(f'{indent}pass')
+            else:
+                _terr(f'{where}: declaration {stripped!r}')
+        else:
+            if stripped.startswith('def ') and not indent:
+                cur = stripped[4:].split('(')[0].strip()
+                types.setdefault(cur, {})
+            out.append(line)
+        i += 1
+    return '\n'.join(out), types
+
+
+def _fn(tree, name, where):
+    import ast
+    hits = [n for n in tree.body if isinstance(n, ast.FunctionDef) and n.name == name]
+    if len(hits) != 1:
+        _terr(f'{where}: function {name} found {len(hits)} times')
+    return hits[0]
+
+
+def _body(fn):
+    import ast
+    b = fn.body
+    if b and isinstance(b[0], ast.Expr) and isinstance(b[0].value, ast.Constant) and isinstance(b[0].value.value, str):
+        b = b[1:]
+    return [s for s in b if not isinstance(s, ast.Pass)]
+
+
+class _Kernel:
+    """one compiled kernel (`dvect_c` / `dmag2_c`) -> Lean definitions."""
+
+    def __init__(self, fn, types, where, prefix):
+        import ast
+        self.ast, self.fn, self.types, self.where, self.prefix = ast, fn, types, where, prefix
+        self.params = [a.arg for a in fn.args.args]
+        if fn.args.defaults or fn.args.kwonlyargs or fn.args.vararg or fn.args.kwarg:
+            _terr(f'{where}: unexpected parameter forms')
+        self.kind = {}            # parameter -> 'rows' | 'mat' | 'flag'
+        for p in self.params:
+            t = types.get(p, '')
+            if 'bint' in t.split():
+                self.kind[p] = 'flag'
+            elif '[:,:]' in t.replace(' ', ''):
+                self.kind[p] = 'rows'
+            else:
+                _terr(f'{where}: parameter {p} has the unsupported type {t!r}')
+        self.consts = {}          # int constants (nj)
+        self.ranges = {}          # int variables defined by `if flag: lo, hi = a, b else: …`
+        self.alias = {}           # memoryview variable -> array it views
+        self.alloc = {}           # array variable -> allocation expression (text)
+        self.scratch = set()      # 1-d scratch vectors (np.empty(3))
+        self.rows_of = None       # the array whose shape[0] is the row count
+        self.ver = {}
+        self.jvar = None
+
+    # ---- expressions --------------------------------------------------------------------
+    def fresh(self, name):
+        self.ver[name] = self.ver.get(name, 0) + 1
+        return f'{name}_{self.ver[name]}'
+
+    def idx_const(self, node, j):
+        a = self.ast
+        if isinstance(node, a.Constant) and isinstance(node.value, int) and not isinstance(node.value, bool):
+            return node.value
+        if isinstance(node, a.Name) and node.id == self.jvar and j is not None:
+            return j
+        _terr(f'{self.where}: index {a.unparse(node)} is neither a constant nor the component index')
+
+    def ref(self, node, env, j):
+        """array element -> (lean text, type)."""
+        a = self.ast
+        arr = node.value.id if isinstance(node.value, a.Name) else None
+        sl = node.slice
+        idx = list(sl.elts) if isinstance(sl, a.Tuple) else [sl]
+        if arr in self.mats and len(idx) == 2:
+            r, c = self.idx_const(idx[0], j), self.idx_const(idx[1], j)
+            if not (0 <= r < 3 and 0 <= c < 3):
+                _terr(f'{self.where}: index out of range in {a.unparse(node)}')
+            return f'{arr}.r{r}.{_COMP[c]}', 'K'
+        if arr in self.rowarrs and len(idx) == 2:
+            if not (isinstance(idx[0], a.Name) and idx[0].id == self.ivar):
+                _terr(f'{self.where}: {a.unparse(node)} does not address the current row')
+            c = self.idx_const(idx[1], j)
+            if not 0 <= c < 3:
+                _terr(f'{self.where}: index out of range in {a.unparse(node)}')
+            key = ('row', self.alias.get(arr, arr))
+            if key not in env:
+                _terr(f'{self.where}: {a.unparse(node)} is read before it is written')
+            return f'{env[key]}.{_COMP[c]}', 'K'
+        if arr in self.scratch and len(idx) == 1:
+            c = self.idx_const(idx[0], j)
+            if not 0 <= c < 3:
+                _terr(f'{self.where}: index out of range in {a.unparse(node)}')
+            if ('vec', arr) not in env:
+                _terr(f'{self.where}: {a.unparse(node)} is read before it is written in this iteration')
+            return f'{env[("vec", arr)]}.{_COMP[c]}', 'K'
+        if arr in self.outscalars and len(idx) == 1:
+            if not (isinstance(idx[0], a.Name) and idx[0].id == self.ivar):
+                _terr(f'{self.where}: {a.unparse(node)} does not address the current row')
+            key = ('cell', self.alias.get(arr, arr))
+            if key not in env:
+                _terr(f'{self.where}: {a.unparse(node)} is read before it is written')
+            return env[key], 'K'
+        _terr(f'{self.where}: unsupported element reference {a.unparse(node)}')
+
+    def expr(self, node, env, j=None):
+        a = self.ast
+        if isinstance(node, a.Constant) and isinstance(node.value, int) and not isinstance(node.value, bool):
+            return (f'({node.value})' if node.value < 0 else str(node.value)), 'Int'
+        if isinstance(node, a.UnaryOp) and isinstance(node.op, a.USub):
+            s, t = self.expr(node.operand, env, j)
+            return f'(-{s})', t
+        if isinstance(node, a.Name):
+            if ('int', node.id) in env:
+                return env[('int', node.id)], 'Int'
+            if ('sc', node.id) in env:
+                return env[('sc', node.id)], 'K'
+            _terr(f'{self.where}: unknown or not yet assigned name {node.id}')
+        if isinstance(node, a.Subscript):
+            return self.ref(node, env, j)
+        if isinstance(node, a.BinOp) and isinstance(node.op, (a.Add, a.Sub, a.Mult)):
+            l, tl = self.expr(node.left, env, j)
+            r, tr_ = self.expr(node.right, env, j)
+            if tl != tr_:
+                if tl == 'Int':
+                    l = f'(({l} : Int) : K)'
+                else:
+                    r = f'(({r} : Int) : K)'
+                tl = 'K'
+            op = {a.Add: '+', a.Sub: '-', a.Mult: '*'}[type(node.op)]
+            return f'({l} {op} {r})', tl
+        _terr(f'{self.where}: unsupported expression {a.unparse(node)}')
+
+    def cond(self, node, env):
+        a = self.ast
+        if isinstance(node, a.BoolOp) and isinstance(node.op, (a.And, a.Or)):
+            parts = [self.cond(v, env) for v in node.values]
+            return '(' + (' ∧ ' if isinstance(node.op, a.And) else ' ∨ ').join(parts) + ')'
+        if isinstance(node, a.Compare) and len(node.ops) == 1:
+            l, tl = self.expr(node.left, env)
+            r, tr_ = self.expr(node.comparators[0], env)
+            if tl != tr_:
+                _terr(f'{self.where}: comparison of an integer with a real: {a.unparse(node)}')
+            ops = {a.Lt: '<', a.LtE: '≤', a.Gt: '>', a.GtE: '≥', a.Eq: '=', a.NotEq: '≠'}
+            if type(node.ops[0]) not in ops:
+                _terr(f'{self.where}: unsupported comparison {a.unparse(node)}')
+            return f'({l} {ops[type(node.ops[0])]} {r})'
+        _terr(f'{self.where}: unsupported test {a.unparse(node)}')
+
+    # ---- statements ---------------------------------------------------------------------
+    def is_range_for(self, st, var=None):
+        a = self.ast
+        return isinstance(st, a.For) and isinstance(st.target, a.Name) and not st.orelse and \
+            isinstance(st.iter, a.Call) and isinstance(st.iter.func, a.Name) and st.iter.func.id == 'range' and \
+            not st.iter.keywords and (var is None or st.target.id == var)
+
+    def comp_loop(self, st):
+        """`for j in range(nj): T[… j] = e(j)` -> (target key, [e0, e1, e2] nodes) or None."""
+        a = self.ast
+        if not self.is_range_for(st) or len(st.iter.args) != 1:
+            return None
+        n = st.iter.args[0]
+        if not (isinstance(n, a.Name) and self.consts.get(n.id) == 3):
+            return None
+        if len(st.body) != 1 or not isinstance(st.body[0], a.Assign) or len(st.body[0].targets) != 1:
+            _terr(f'{self.where}: component loop with an unsupported body: {a.unparse(st)}')
+        return st.target.id, st.body[0]
+
+    def stmts(self, body, env, lines, ind):
+        """straight-line statements -> `let` lines; env is updated in place."""
+        a = self.ast
+        for st in body:
+            cl = self.comp_loop(st) if isinstance(st, a.For) else None
+            if cl is not None:
+                jv, asg = cl
+                self.jvar = jv
+                tgt = asg.targets[0]
+                if not isinstance(tgt, a.Subscript) or not isinstance(tgt.value, a.Name):
+                    _terr(f'{self.where}: unsupported assignment target {a.unparse(tgt)}')
+                arr = tgt.value.id
+                idx = list(tgt.slice.elts) if isinstance(tgt.slice, a.Tuple) else [tgt.slice]
+                if not (isinstance(idx[-1], a.Name) and idx[-1].id == jv):
+                    _terr(f'{self.where}: component loop does not write component {jv}: {a.unparse(st)}')
+                if arr in self.scratch and len(idx) == 1:
+                    key = ('vec', arr)
+                elif arr in self.outrows and len(idx) == 2 and isinstance(idx[0], a.Name) and idx[0].id == self.ivar:
+                    key = ('row', self.alias.get(arr, arr))
+                else:
+                    _terr(f'{self.where}: unsupported vector target {a.unparse(tgt)}')
+                comps = [self.expr(asg.value, env, j) for j in range(3)]
+                if any(t != 'K' for _, t in comps):
+                    _terr(f'{self.where}: integer-valued component in {a.unparse(st)}')
+                name = self.fresh(arr)
+                lines.append(f'{ind}let {name} : V3 K := ⟨{", ".join(c for c, _ in comps)}⟩')
+                env[key] = name
+                self.jvar = None
+                continue
+            if isinstance(st, a.Assign) and len(st.targets) == 1:
+                tgt = st.targets[0]
+                self.jvar = None
+                s, t = self.expr(st.value, env)
+                if t != 'K':
+                    _terr(f'{self.where}: integer-valued assignment {a.unparse(st)}')
+                if isinstance(tgt, a.Name):
+                    if 'double' not in self.types.get(tgt.id, '').split():
+                        _terr(f'{self.where}: {tgt.id} is assigned a real value but declared {self.types.get(tgt.id)!r}')
+                    name = self.fresh(tgt.id)
+                    lines.append(f'{ind}let {name} : K := {s}')
+                    env[('sc', tgt.id)] = name
+                    continue
+                if isinstance(tgt, a.Subscript) and isinstance(tgt.value, a.Name) and tgt.value.id in self.outscalars \
+                        and isinstance(tgt.slice, a.Name) and tgt.slice.id == self.ivar:
+                    name = self.fresh(tgt.value.id)
+                    lines.append(f'{ind}let {name} : K := {s}')
+                    env[('cell', self.alias.get(tgt.value.id, tgt.value.id))] = name
+                    continue
+                _terr(f'{self.where}: unsupported assignment {a.unparse(st)}')
+            if isinstance(st, a.If) and not st.orelse:
+                c = self.cond(st.test, env)
+                env2 = dict(env)
+                inner = []
+                self.stmts(st.body, env2, inner, ind + '    ')
+                changed = [k for k in env2 if env2[k] != env.get(k)]
+                if len(changed) != 1 or changed[0] not in env:
+                    _terr(f'{self.where}: a conditional block must update exactly one already defined value: {a.unparse(st)[:80]}')
+                k = changed[0]
+                base = k[1]
+                name = self.fresh(base)
+                ty = 'V3 K' if k[0] in ('row', 'vec') else 'K'
+                lines.append(f'{ind}let {name} : {ty} := if {c} then')
+                lines.extend(inner)
+                lines.append(f'{ind}    {env2[k]}')
+                lines.append(f'{ind}  else {env[k]}')
+                env[k] = name
+                continue
+            _terr(f'{self.where}: unsupported statement {a.unparse(st)[:100]}')
+
+    # ---- the whole function -------------------------------------------------------------
+    def compile(self):
+        a = self.ast
+        body = _body(self.fn)
+        self.mats = set()
+        self.rowarrs = set()
+        self.outrows, self.outscalars = set(), set()
+        flags = [p for p in self.params if self.kind[p] == 'flag']
+        i = 0
+        row_loop = None
+        ret = None
+        while i < len(body):
+            st = body[i]
+            i += 1
+            if isinstance(st, a.Assign) and len(st.targets) == 1 and isinstance(st.targets[0], a.Name):
+                nm, v = st.targets[0].id, st.value
+                if isinstance(v, a.Constant) and isinstance(v.value, int):
+                    self.consts[nm] = v.value
+                elif isinstance(v, a.Subscript) and a.unparse(v).endswith('.shape[0]') and isinstance(v.value, a.Attribute) \
+                        and isinstance(v.value.value, a.Name):
+                    self.rows_of = (nm, v.value.value.id)
+                elif isinstance(v, a.Call) and a.unparse(v.func) in ('np.empty', 'np.empty_like', 'np.zeros'):
+                    txt = a.unparse(v)
+                    t = self.types.get(nm, '').replace(' ', '')
+                    if t.endswith('[:]') and a.unparse(v.args[0]) == '3':
+                        if 'double' not in t:
+                            _terr(f'{self.where}: scratch vector {nm} declared {t!r}')
+                        self.scratch.add(nm)
+                    self.alloc[nm] = txt
+                elif isinstance(v, a.Name) and v.id in self.alloc:
+                    t = self.types.get(nm, '').replace(' ', '')
+                    if 'double' not in t:
+                        _terr(f'{self.where}: view {nm} declared {t!r}')
+                    self.alias[nm] = v.id
+                    if t.endswith('[:,:]'):
+                        self.outrows.add(nm)
+                        self.rowarrs.add(nm)
+                    elif t.endswith('[:]'):
+                        self.outscalars.add(nm)
+                    else:
+                        _terr(f'{self.where}: view {nm} declared {t!r}')
+                else:
+                    _terr(f'{self.where}: unsupported set-up statement {a.unparse(st)}')
+            elif isinstance(st, a.If) and isinstance(st.test, a.Name) and st.test.id in flags and len(st.body) == 1 \
+                    and len(st.orelse) == 1:
+                def pair(s):
+                    if not (isinstance(s, a.Assign) and len(s.targets) == 1 and isinstance(s.targets[0], a.Tuple)
+                            and isinstance(s.value, a.Tuple) and len(s.value.elts) == len(s.targets[0].elts)):
+                        _terr(f'{self.where}: unsupported range set-up {a.unparse(st)}')
+                    out = {}
+                    for t_, v_ in zip(s.targets[0].elts, s.value.elts):
+                        try:
+                            val = a.literal_eval(v_)
+                        except Exception:
+                            _terr(f'{self.where}: range bound {a.unparse(v_)} is not an integer literal')
+                        if not (isinstance(t_, a.Name) and isinstance(val, int) and not isinstance(val, bool)):
+                            _terr(f'{self.where}: unsupported range set-up {a.unparse(st)}')
+                        out[t_.id] = val
+                    return out
+                yes, no = pair(st.body[0]), pair(st.orelse[0])
+                if set(yes) != set(no):
+                    _terr(f'{self.where}: the two branches of `if {st.test.id}` set different names')
+                for nm in yes:
+                    lit = lambda k: f'({k})' if k < 0 else str(k)
+                    self.ranges[nm] = f'(if {st.test.id} then {lit(yes[nm])} else {lit(no[nm])})'
+            elif self.is_range_for(st):
+                if row_loop is not None:
+                    _terr(f'{self.where}: more than one row loop')
+                row_loop = st
+            elif isinstance(st, a.Return):
+                ret = st.value
+                if i != len(body):
+                    _terr(f'{self.where}: statements after return')
+            else:
+                _terr(f'{self.where}: unsupported statement {a.unparse(st)[:100]}')
+        if row_loop is None or ret is None:
+            _terr(f'{self.where}: no row loop / no return')
+        for p in self.params:
+            if self.kind[p] == 'rows':
+                self.rowarrs.add(p)
+        # the matrix parameter: a `[:,:]` parameter that is addressed with constant first indices only
+        self.ivar = row_loop.target.id
+        for p in [q for q in self.params if self.kind[q] == 'rows']:
+            uses = [n for n in a.walk(row_loop) if isinstance(n, a.Subscript) and isinstance(n.value, a.Name) and n.value.id == p]
+            if uses and all(isinstance(u.slice, a.Tuple) and isinstance(u.slice.elts[0], a.Constant) for u in uses):
+                self.mats.add(p)
+                self.rowarrs.discard(p)
+                self.kind[p] = 'mat'
+        if not (len(row_loop.iter.args) == 1 and isinstance(row_loop.iter.args[0], a.Name) and self.rows_of
+                and row_loop.iter.args[0].id == self.rows_of[0]):
+            _terr(f'{self.where}: the row loop does not run over `<array>.shape[0]`')
+        if not (isinstance(ret, a.Name) and ret.id in self.alloc and ret.id in self.alias.values()):
+            _terr(f'{self.where}: the function does not return the array its view writes to')
+        self.out = ret.id
+        outviews = [v for v, t in self.alias.items() if t == self.out]
+        if len(outviews) != 1:
+            _terr(f'{self.where}: {len(outviews)} views of the returned array')
+        self.outview = outviews[0]
+        self.carried = ('row', self.out) if self.outview in self.outrows else ('cell', self.out)
+        cty = 'V3 K' if self.carried[0] == 'row' else 'K'
+        # per-row statements: initialisation, then the loop nest
+        pre, nest = [], None
+        for k, st in enumerate(row_loop.body):
+            if self.is_range_for(st) and self.comp_loop(st) is None:
+                nest = st
+                if k != len(row_loop.body) - 1:
+                    _terr(f'{self.where}: statements after the image loops')
+                break
+            pre.append(st)
+        if nest is None:
+            _terr(f'{self.where}: no image loop nest')
+        rowpars = [p for p in self.params if self.kind[p] == 'rows']
+        if len(rowpars) != 2 or self.rows_of[1] != rowpars[0]:
+            _terr(f'{self.where}: the row count is taken from {self.rows_of[1]}, not from the first position array')
+        env0 = {('row', p): p for p in rowpars}
+        self.jvar = None
+        init_lines = []
+        env = dict(env0)
+        self.stmts(pre, env, init_lines, '  ')
+        if self.carried not in env:
+            _terr(f'{self.where}: the output row is not initialised before the image loops')
+        init_result = env[self.carried]
+        # the nest
+        loopvars, rngs = [], []
+        cur = nest
+        while True:
+            if not (self.is_range_for(cur) and len(cur.iter.args) == 2):
+                _terr(f'{self.where}: image loop {a.unparse(cur)[:60]} is not `for v in range(lo, hi)`')
+            lo, hi = cur.iter.args
+            if not (isinstance(lo, a.Name) and isinstance(hi, a.Name) and lo.id in self.ranges and hi.id in self.ranges):
+                _terr(f'{self.where}: loop bounds of {cur.target.id} are not the flag-dependent ranges')
+            loopvars.append(cur.target.id)
+            rngs.append(f'intRange {self.ranges[lo.id]} {self.ranges[hi.id]}')
+            if len(cur.body) == 1 and self.is_range_for(cur.body[0]) and self.comp_loop(cur.body[0]) is None:
+                cur = cur.body[0]
+                continue
+            inner = cur.body
+            break
+        if len(loopvars) != 3:
+            _terr(f'{self.where}: {len(loopvars)} nested image loops instead of 3')
+        # innermost body: optional leading `if …: continue`, then straight-line statements
+        skip = None
+        envb = dict(env0)
+        envb[self.carried] = 'acc'
+        for v in loopvars:
+            envb[('int', v)] = v
+        if inner and isinstance(inner[0], a.If) and len(inner[0].body) == 1 and isinstance(inner[0].body[0], a.Continue) \
+                and not inner[0].orelse:
+            skip = self.cond(inner[0].test, envb)
+            inner = inner[1:]
+        if any(isinstance(n, (a.Continue, a.Break, a.Return)) for s in inner for n in a.walk(s)):
+            _terr(f'{self.where}: control flow inside the image loop body other than the leading skip')
+        body_lines = []
+        self.stmts(inner, envb, body_lines, '  ')
+        body_result = envb[self.carried]
+        P = self.prefix
+        sig = ' '.join(
+            f'({p} : {"V3 K" if self.kind[p] == "rows" else "M3 K" if self.kind[p] == "mat" else "Bool"})' for p in self.params)
+        flagsig = ' '.join(f'({p} : Bool)' for p in flags)
+        L = []
+        L.append(f'/-- the image loops of `{self.fn.name}` in nesting order ({", ".join(loopvars)}): every visited triple. -/')
+        L.append(f'def {P}Loop {flagsig} : List (Int × Int × Int) :=')
+        L.append(f'  ({rngs[0]}).flatMap fun {loopvars[0]} => ({rngs[1]}).flatMap fun {loopvars[1]} => '
+                 f'({rngs[2]}).map fun {loopvars[2]} => ({", ".join(loopvars)})')
+        L.append(f'/-- what one row holds before the image loops. -/')
+        L.append(f'def {P}Init {sig} : {cty} :=')
+        L.extend(init_lines)
+        L.append(f'  {init_result}')
+        L.append(f'/-- one pass through the innermost loop body; `acc` is the value the output row holds on entry. -/')
+        L.append(f'def {P}Body {sig} (acc : {cty}) ({" ".join(loopvars)} : Int) : {cty} :=')
+        if skip is not None:
+            L.append(f'  if {skip} then acc else')
+        L.extend(body_lines)
+        L.append(f'  {body_result}')
+        L.append(f'/-- `{self.fn.name}` for one row (the rows are independent: the body addresses row `{self.ivar}` only). -/')
+        args = ' '.join(self.params)
+        L.append(f'def {P} {sig} : {cty} :=')
+        L.append(f'  ({P}Loop {" ".join(flags)}).foldl (fun acc s => {P}Body {args} acc s.1 s.2.1 s.2.2) ({P}Init {args})')
+        real = sorted((n, ' '.join(t.split())) for n, t in self.types.items() if 'double' in t or 'float' in t)
+        self.real_types = real
+        self.loopvars = loopvars
+        return '\n'.join(L)
+
+
+def _wrapper(a, fn, kernel_name, kernel_params, where, lean_kernel, post):
+    """the def wrapper `dvect` / `dmag` -> a Lean definition in terms of the `PosArg` primitives."""
+    params = [x.arg for x in fn.args.args]
+    if params != ['pos_0', 'pos_1', 'box', 'pbc'] or fn.args.defaults or fn.args.kwonlyargs or fn.args.vararg or fn.args.kwarg:
+        _terr(f'{where}: signature of {fn.name} is {params}')
+    body = _body(fn)
+    L = []
+    k = 0
+
+    def need(cond, what):
+        if not cond:
+            _terr(f'{where}: {fn.name}: {what}')
+
+    for p in ('pos_0', 'pos_1'):
+        st = body[k]
+        need(a.unparse(st) == f'{p} = np.asarray({p}, dtype=np.float64)', f'expected the float64 conversion of {p}, found {a.unparse(st)[:70]}')
+        k += 1
+        while k < len(body) and isinstance(body[k], a.If) and not body[k].orelse and isinstance(body[k].test, a.Compare) \
+                and a.unparse(body[k].test.left) == f'{p}.ndim':
+            st = body[k]
+            need(len(st.test.ops) == 1 and isinstance(st.test.ops[0], a.Eq) and isinstance(st.test.comparators[0], a.Constant)
+                 and isinstance(st.test.comparators[0].value, int), f'unsupported rank test {a.unparse(st.test)}')
+            val = st.test.comparators[0].value
+            need(len(st.body) == 1, f'unsupported rank branch {a.unparse(st)[:70]}')
+            act = st.body[0]
+            if isinstance(act, a.Raise):
+                exc = act.exc.func.id if isinstance(act.exc, a.Call) and isinstance(act.exc.func, a.Name) else None
+                need(exc in ('TypeError', 'ValueError'), f'unsupported exception {a.unparse(act)}')
+                L.append(f'  if {p}.ndim = {val} then Except.error "{exc[:-5].lower()}" else')
+            elif a.unparse(act) == f'{p} = {p}[np.newaxis, :]':
+                L.append(f'  let {p} := if {p}.ndim = {val} then {p}.newaxis else {p}')
+            else:
+                need(False, f'unsupported rank branch {a.unparse(act)[:70]}')
+            k += 1
+    # broadcasting chain
+    st = body[k]
+    k += 1
+    need(isinstance(st, a.If), f'expected the broadcasting chain, found {a.unparse(st)[:70]}')
+    chain = []
+    cur = st
+    while True:
+        chain.append((cur.test, cur.body))
+        if len(cur.orelse) == 1 and isinstance(cur.orelse[0], a.If):
+            cur = cur.orelse[0]
+            continue
+        need(not cur.orelse, 'broadcasting chain with a final else')
+        break
+
+    def length_test(t):
+        need(isinstance(t, a.Compare) and len(t.ops) == 1 and isinstance(t.ops[0], (a.Eq, a.NotEq)), f'unsupported test {a.unparse(t)}')
+        def side(n):
+            if isinstance(n, a.Call) and isinstance(n.func, a.Name) and n.func.id == 'len' and len(n.args) == 1 \
+                    and isinstance(n.args[0], a.Name) and n.args[0].id in ('pos_0', 'pos_1'):
+                return f'{n.args[0].id}.len'
+            if isinstance(n, a.Constant) and isinstance(n.value, int) and not isinstance(n.value, bool):
+                return str(n.value)
+            need(False, f'unsupported operand {a.unparse(n)}')
+        return f'{side(t.left)} {"=" if isinstance(t.ops[0], a.Eq) else "≠"} {side(t.comparators[0])}'
+
+    L.append('  (')
+    for n, (t, b) in enumerate(chain):
+        need(len(b) == 1, f'unsupported branch {a.unparse(b[0])[:70]}')
+        act = b[0]
+        pre = '    if' if n == 0 else '    else if'
+        if isinstance(act, a.Raise):
+            exc = act.exc.func.id if isinstance(act.exc, a.Call) and isinstance(act.exc.func, a.Name) else None
+            need(exc in ('TypeError', 'ValueError'), f'unsupported exception {a.unparse(act)}')
+            L.append(f'{pre} {length_test(t)} then Except.error "{exc[:-5].lower()}"')
+        else:
+            txt = a.unparse(act)
+            if txt == 'pos_0 = np.broadcast_to(pos_0, pos_1.shape)':
+                L.append(f'{pre} {length_test(t)} then (pos_0.bcast pos_1).map fun t => (t, pos_1)')
+            elif txt == 'pos_1 = np.broadcast_to(pos_1, pos_0.shape)':
+                L.append(f'{pre} {length_test(t)} then (pos_1.bcast pos_0).map fun t => (pos_0, t)')
+            else:
+                need(False, f'unsupported branch {txt[:70]}')
+    L.append('    else Except.ok (pos_0, pos_1)) >>= fun pp =>')
+    L.append('  let pos_0 := pp.1')
+    L.append('  let pos_1 := pp.2')
+    st = body[k]
+    k += 1
+    need(a.unparse(st) == 'bvects = box.vects', f'expected `bvects = box.vects`, found {a.unparse(st)[:70]}')
+    st = body[k]
+    need(isinstance(st, a.Return) and k == len(body) - 1, f'expected the final return, found {a.unparse(st)[:70]}')
+    call = st.value
+    if post is not None:
+        need(isinstance(call, a.BinOp) and isinstance(call.op, a.Pow) and a.unparse(call.right) == post, f'the result is not `kernel(...) ** {post}`: {a.unparse(call)[:70]}')
+        call = call.left
+    need(isinstance(call, a.Call) and isinstance(call.func, a.Name) and call.func.id == kernel_name and not call.keywords
+         and len(call.args) == len(kernel_params), f'the kernel call is {a.unparse(call)[:90]}')
+    flags, args = [], []
+    for arg in call.args:
+        txt = a.unparse(arg)
+        if txt in ('pos_0', 'pos_1'):
+            args.append(('row', txt))
+        elif txt == 'bvects':
+            args.append(('mat', 'vects'))
+        elif isinstance(arg, a.Subscript) and isinstance(arg.value, a.Name) and arg.value.id == 'pbc' \
+                and isinstance(arg.slice, a.Constant) and isinstance(arg.slice.value, int) and arg.slice.value >= 0:
+            flags.append(arg.slice.value)
+            args.append(('flag', f'f{len(flags) - 1}'))
+        else:
+            need(False, f'unsupported kernel argument {txt}')
+    rowpos = [n for n, (kd, _) in enumerate(args) if kd == 'row']
+    need(len(rowpos) == 2, 'the kernel call does not pass two position arrays')
+    # the kernel is applied row by row: fun r0 r1 => kernel … with the rows in the argument slots of the call
+    slot = {rowpos[0]: 'r0', rowpos[1]: 'r1'}
+    kargs = ' '.join(slot[n] if n in slot else nm for n, (kd, nm) in enumerate(args))
+    first, second = args[rowpos[0]][1], args[rowpos[1]][1]
+    need({first, second} == {'pos_0', 'pos_1'}, 'the kernel call does not pass pos_0 and pos_1')
+    if flags:
+        L.append('  match ' + ', '.join(f'flagAt pbc {f}' for f in flags) + ' with')
+        L.append('  | ' + ', '.join(f'some f{n}' for n in range(len(flags))) + ' =>')
+        L.append(f'    kernelCall (fun r0 r1 => {lean_kernel} {kargs}) {first} {second}')
+        L.append('  | ' + ', '.join('_' for _ in flags) + ' => Except.error "undefined"')
+    else:
+        L.append(f'  kernelCall (fun r0 r1 => {lean_kernel} {kargs}) {first} {second}')
+    return '\n'.join(L)
+
+
+def _system_method(a, cls, name, callee, where):
+    fns = [n for n in cls.body if isinstance(n, a.FunctionDef) and n.name == name]
+    if len(fns) != 1:
+        _terr(f'{where}: System.{name} found {len(fns)} times')
+    fn = fns[0]
+    params = [x.arg for x in fn.args.args]
+    if params != ['self', 'pos_0', 'pos_1'] or fn.args.defaults:
+        _terr(f'{where}: System.{name} has the parameters {params}')
+    body = _body(fn)
+    if len(body) != 4:
+        _terr(f'{where}: System.{name} has {len(body)} statements instead of 4')
+    for k, p in enumerate(('pos_0', 'pos_1')):
+        st = body[k]
+        ok = isinstance(st, a.Try) and len(st.body) == 1 and a.unparse(st.body[0]) == f'{p} = self.atoms.pos[{p}]' \
+            and len(st.handlers) == 1 and st.handlers[0].type is None and len(st.handlers[0].body) == 1 \
+            and a.unparse(st.handlers[0].body[0]) == f'{p} = np.asarray({p})' and not st.orelse and not st.finalbody
+        if not ok:
+            _terr(f'{where}: System.{name}: statement {k + 1} is not the index-or-position dispatch of {p}: {a.unparse(st)[:90]}')
+    st = body[2]
+    if not (isinstance(st, a.Assign) and len(st.targets) == 1 and isinstance(st.targets[0], a.Name)
+            and isinstance(st.value, a.Call) and isinstance(st.value.func, a.Name) and not st.value.keywords):
+        _terr(f'{where}: System.{name}: unsupported call statement {a.unparse(st)[:90]}')
+    res = st.targets[0].id
+    if st.value.func.id != callee:
+        _terr(f'{where}: System.{name} calls {st.value.func.id}, not {callee}')
+    cargs = [a.unparse(x) for x in st.value.args]
+    if cargs != ['pos_0', 'pos_1', 'self.box', 'self.pbc']:
+        _terr(f'{where}: System.{name} calls {callee}({", ".join(cargs)})')
+    st = body[3]
+    ok = isinstance(st, a.If) and a.unparse(st.test) == f'len({res}) == 1' and len(st.body) == 1 and len(st.orelse) == 1 \
+        and a.unparse(st.body[0]) == f'return {res}[0]' and a.unparse(st.orelse[0]) == f'return {res}'
+    if not ok:
+        _terr(f'{where}: System.{name}: the result handling is not `if len(r) == 1: return r[0] else: return r`')
+    return 'decide (r.length = 1)'
+
+
+def translate():
+    import ast as a
+    out = []
+    A = out.append
+    A('/- GENERATED by harness/props/c02.py (translate) from atomman/core/dvect.pyx, dmag.pyx, displacement.py and')
+    A('   atomman/core/System.py (System.dvect, System.dmag, the pbc property) - do not edit.')
+    A('   The kernels are compiled from the `ast` of the (declaration-stripped) Cython text: loop bounds, nesting order, the')
+    A('   skipped triple, the candidate formula, the squared lengths, the comparison and what it replaces; the wrappers, the')
+    A('   System methods and `displacement` statement by statement in terms of the primitives of `Atomman/C02.lean`.')
+    A('   `Proofs/C02_Source.lean` proves each definition equal to the hand-written model. -/')
+    A('import Atomman.C02')
+    A('')
+    A('namespace Atomman.Generated.DvectSource')
+    A('open Atomman Atomman.C02')
+    A('')
+    A('set_option linter.unusedVariables false')
+    A('')
+    A('section')
+    A('variable {K : Type} [Add K] [Sub K] [Mul K] [IntCast K] [LT K] [DecidableLT K] [LE K] [DecidableLE K]')
+    A('')
+    kernels = {}
+    reals = []
+    for fname, kname, wname, pref in (('atomman/core/dvect.pyx', 'dvect_c', 'dvect', 'dvectC'),
+                                      ('atomman/core/dmag.pyx', 'dmag2_c', 'dmag', 'dmag2C')):
+        src = cm.source(fname)
+        py, types = _decython(src, fname)
+        try:
+            tree = a.parse(py)
+        except SyntaxError as e:
+            _terr(f'{fname}: not parseable after removing the declarations: {e}')
+        kfn = _fn(tree, kname, fname)
+        K_ = _Kernel(kfn, types.get(kname, {}), f'{fname}:{kname}', pref)
+        A(f'/-! ### `{kname}` ({fname}) -/')
+        A(K_.compile())
+        A('')
+        kernels[kname] = K_
+        reals.append((kname, K_.real_types))
+        wfn = _fn(tree, wname, fname)
+        decos = sorted(a.unparse(d) for d in wfn.decorator_list)
+        A(f'/-- `{wname}(pos_0, pos_1, box, pbc)`: conversions, rank checks, broadcasting chain, kernel call'
+          + (' (the caller gets `** 0.5` of these values)' if wname == 'dmag' else '') + '. -/')
+        rt = 'V3 K' if wname == 'dvect' else 'K'
+        A(f'def {wname}Wrap (vects : M3 K) (pbc : List Int) (pos_0 pos_1 : PosArg K) : Except String (List ({rt})) :=')
+        A(_wrapper(a, wfn, kname, K_.params, fname, pref, '0.5' if wname == 'dmag' else None))
+        A(f'/-- decorators of the wrapper `{wname}` (bounds checks are off: `pbc[k]` is an unchecked read). -/')
+        A(f'def {wname}Decorators : List String := [{", ".join(chr(34) + d + chr(34) for d in decos)}]')
+        A('')
+    # System methods
+    ssrc = cm.source('atomman/core/System.py')
+    stree = a.parse(ssrc)
+    classes = [n for n in stree.body if isinstance(n, a.ClassDef) and n.name == 'System']
+    if len(classes) != 1:
+        _terr('System.py: class System not found')
+    cls = classes[0]
+    imports = {}
+    for n in stree.body:
+        if isinstance(n, a.ImportFrom):
+            for al in n.names:
+                imports[al.asname or al.name] = (n.module, n.level, al.name)
+    for nm in ('dvect', 'dmag'):
+        if nm not in imports or imports[nm][2] != nm:
+            _terr(f'System.py: `{nm}` is not imported as itself: {imports.get(nm)}')
+    A('/-! ### `System.dvect` / `System.dmag` (atomman/core/System.py): `try: self.atoms.pos[p] except: np.asarray(p)` for both')
+    A('    arguments (numpy indexing: `selectBoth`), the wrapper with `self.box`, `self.pbc`, then `if len(r) == 1: r[0]`. -/')
+    for nm, rt in (('dvect', 'V3 K'), ('dmag', 'K')):
+        sq = _system_method(a, cls, nm, nm, 'System.py')
+        A(f'def sys{nm.capitalize()} (atoms : List (V3 K)) (vects : M3 K) (px py pz : Bool) (pos_0 pos_1 : Sel K) :'
+          f' Except String (Bool × List ({rt})) :=')
+        A(f'  selectBoth atoms pos_0 pos_1 >>= fun ab =>')
+        A(f'  ({nm}Wrap vects (Sys.flags ⟨vects, px, py, pz, atoms⟩) (.rows ab.1) (.rows ab.2)).map fun r => ({sq}, r)')
+    # pbc property
+    props = {}
+    for n in cls.body:
+        if isinstance(n, a.FunctionDef) and n.name in ('pbc', 'box', 'natoms', 'atoms'):
+            decs = [a.unparse(d) for d in n.decorator_list]
+            props[(n.name, 'setter' if any(d.endswith('.setter') for d in decs) else 'getter')] = n
+    def getter(name, expect):
+        fn = props.get((name, 'getter'))
+        if fn is None:
+            _terr(f'System.py: property {name} not found')
+        b = _body(fn)
+        if len(b) != 1 or a.unparse(b[0]) != expect:
+            _terr(f'System.py: the getter of {name} is not `{expect}`: {a.unparse(b[0])[:80] if b else ""}')
+    getter('pbc', 'return self.__pbc')
+    getter('box', 'return self.__box')
+    getter('atoms', 'return self.__atoms')
+    getter('natoms', 'return self.__atoms.natoms')
+    A('/-- the getters `System.pbc`, `System.box`, `System.atoms` hand out the stored objects themselves (no copy, no cache),')
+    A('    `System.natoms` is `self.__atoms.natoms`. -/')
+    A('def systemGettersLive : Bool := true')
+    st = props.get(('pbc', 'setter'))
+    if st is None:
+        _terr('System.py: no pbc setter')
+    b = _body(st)
+    sp = [x.arg for x in st.args.args]
+    ok = len(sp) == 2 and len(b) == 3 and a.unparse(b[0]) == f'pbc = np.asarray({sp[1]}, dtype=bool)' \
+        and isinstance(b[1], a.Assert) and a.unparse(b[1].test) == 'pbc.shape == (3,)' and a.unparse(b[2]) == 'self.__pbc = pbc'
+    if not ok:
+        _terr('System.py: the pbc setter is not asarray(dtype=bool) / assert shape == (3,) / store')
+    A('/-- `System.pbc = value`: `np.asarray(value, dtype=bool)` (truth values), `assert pbc.shape == (3,)`, stored. -/')
+    A('def pbcSetter (value : List Int) : Option (Bool × Bool × Bool) :=')
+    A('  let pbc := value.map fun v => v != 0')
+    A('  if pbc.length = 3 then some (pbc.getD 0 false, pbc.getD 1 false, pbc.getD 2 false) else none')
+    A('')
+    # displacement
+    dsrc = cm.source('atomman/core/displacement.py')
+    dtree = a.parse(dsrc)
+    dimp = {}
+    for n in dtree.body:
+        if isinstance(n, a.ImportFrom):
+            for al in n.names:
+                dimp[al.asname or al.name] = (n.module, n.level, al.name)
+    if dimp.get('dvect') != (None, 1, 'dvect'):
+        _terr(f'displacement.py: dvect is imported as {dimp.get("dvect")}')
+    dfn = _fn(dtree, 'displacement', 'displacement.py')
+    dparams = [x.arg for x in dfn.args.args]
+    if dparams != ['system_0', 'system_1', 'box_reference'] or len(dfn.args.defaults) != 1 or dfn.args.kwonlyargs:
+        _terr(f'displacement.py: parameters {dparams}')
+    try:
+        default = a.literal_eval(dfn.args.defaults[0])
+    except Exception:
+        _terr('displacement.py: the default of box_reference is not a literal')
+    if not (default is None or isinstance(default, str)):
+        _terr(f'displacement.py: default {default!r}')
+    body = _body(dfn)
+    L = []
+
+    def ref_test(t):
+        if isinstance(t, a.Compare) and len(t.ops) == 1 and a.unparse(t.left) == 'box_reference':
+            c = t.comparators[0]
+            if isinstance(t.ops[0], a.Eq) and isinstance(c, a.Constant) and isinstance(c.value, str):
+                if c.value == 'None':
+                    _terr("displacement.py: the string 'None' is compared with (the wire form of None)")
+                return f'box_reference = "{c.value}"'
+            if isinstance(t.ops[0], a.Is) and isinstance(c, a.Constant) and c.value is None:
+                return 'box_reference = "None"'
+        _terr(f'displacement.py: unsupported test {a.unparse(t)}')
+
+    def sysname(txt):
+        if txt not in ('system_0', 'system_1'):
+            _terr(f'displacement.py: unsupported operand {txt}')
+        return txt
+
+    def action(stmts):
+        if len(stmts) != 1:
+            _terr(f'displacement.py: unsupported branch {a.unparse(stmts[0])[:80]}')
+        st = stmts[0]
+        if isinstance(st, a.Raise):
+            exc = st.exc.func.id if isinstance(st.exc, a.Call) and isinstance(st.exc.func, a.Name) else None
+            if exc not in ('ValueError', 'TypeError'):
+                _terr(f'displacement.py: unsupported exception {a.unparse(st)}')
+            return f'Except.error "{exc[:-5].lower()}"'
+        if isinstance(st, a.Assign) and len(st.targets) == 1 and a.unparse(st.targets[0]) == 'disp':
+            v = st.value
+            if isinstance(v, a.Call) and isinstance(v.func, a.Name) and v.func.id == 'dvect' and not v.keywords and len(v.args) == 4:
+                args = [a.unparse(x) for x in v.args]
+                pos = []
+                for x in args[:2]:
+                    if not x.endswith('.atoms.pos'):
+                        _terr(f'displacement.py: unsupported argument {x}')
+                    pos.append(sysname(x[:-len('.atoms.pos')]))
+                if not args[2].endswith('.box') or not args[3].endswith('.pbc'):
+                    _terr(f'displacement.py: unsupported arguments {args[2]}, {args[3]}')
+                b_, p_ = sysname(args[2][:-4]), sysname(args[3][:-4])
+                return f'dvectWrap {b_}.vects {p_}.flags (.rows {pos[0]}.pos) (.rows {pos[1]}.pos)'
+            if isinstance(v, a.BinOp) and isinstance(v.op, a.Sub):
+                l, r = a.unparse(v.left), a.unparse(v.right)
+                if l.endswith('.atoms.pos') and r.endswith('.atoms.pos'):
+                    return f'Except.ok (List.zipWith (fun p q => p - q) {sysname(l[:-10])}.pos {sysname(r[:-10])}.pos)'
+            _terr(f'displacement.py: unsupported value {a.unparse(v)[:80]}')
+        _terr(f'displacement.py: unsupported branch {a.unparse(st)[:80]}')
+
+    k = 0
+    st = body[k]
+    if not (isinstance(st, a.If) and not st.orelse and a.unparse(st.test) in ('system_0.natoms != system_1.natoms', 'system_1.natoms != system_0.natoms')):
+        _terr(f'displacement.py: the first statement is not the atom-count check: {a.unparse(st)[:80]}')
+    L.append(f'  if system_0.natoms ≠ system_1.natoms then {action(st.body)} else')
+    k += 1
+    st = body[k]
+    if not isinstance(st, a.If):
+        _terr('displacement.py: expected the box_reference chain')
+    cur = st
+    first = True
+    while True:
+        L.append(f'  {"if" if first else "else if"} {ref_test(cur.test)} then {action(cur.body)}')
+        first = False
+        if len(cur.orelse) == 1 and isinstance(cur.orelse[0], a.If):
+            cur = cur.orelse[0]
+            continue
+        if not cur.orelse:
+            _terr('displacement.py: the box_reference chain has no final else')
+        L.append(f'  else {action(cur.orelse)}')
+        break
+    k += 1
+    if not (k == len(body) - 1 and a.unparse(body[k]) == 'return disp'):
+        _terr('displacement.py: the function does not end with `return disp`')
+    A('/-! ### `displacement` (atomman/core/displacement.py); the wire form of `None` is the string "None" -/')
+    A('def displacement (system_0 system_1 : Sys K) (box_reference : String) : Except String (List (V3 K)) :=')
+    out.extend(L)
+    A(f'/-- the default of `box_reference`. -/')
+    A(f'def boxReferenceDefault : String := "{default if default is not None else "None"}"')
+    A('')
+    A('end')
+    A('')
+    A('/-! ### declared C types of the real-valued variables of the kernels (the model is exact: it idealises `double`) -/')
+    for kname, real in reals:
+        A(f'def realTypes_{kname} : List (String × String) := [' + ', '.join(f'("{n}", "{t}")' for n, t in real) + ']')
+    A('')
+    A('end Atomman.Generated.DvectSource')
+    return {'DvectSource': '\n'.join(out) + '\n'}
+
 
 
 MANIFEST = {
